@@ -39,6 +39,9 @@ class YMapBase(YObject):
     """yamlize maps (yamlize.maps.__MapBase): a wrapper around ONE insertion-ordered dict; attributes the wrapper does not
     have (items, values, keys, get, update, ...) are the dict's"""
 
+    def __init__(self, *args, **kwargs):
+        self._d = dict(*args, **kwargs)
+
     def __getattr__(self, n):
         return getattr(self._d, n)
 
@@ -308,7 +311,7 @@ def nuc(name, a=1, trans=(), decays=(), element=None):
                element=element)
 
 
-U5 = nuc("U235", 235)
+U5 = nuc("U235", 235, trans=("n,gamma",))
 U8 = nuc("U238", 238)
 O16 = nuc("O16", 16)
 # the element U: natural isotopes U235 and U238, plus its own NaturalNuclideBase entry (a = 0) that getNaturalIsotopics leaves out
@@ -1308,3 +1311,58 @@ def custom_isotopic_density_sets_the_component_density(kind: int, rho: float, n1
     cb2 = new(ComponentBlueprint, name="fuel", material=matName, isotopics=None, Tinput=T0)
     cb2._setComponentCustomDensity(comp, bp, {}, hot)
     assert eq(comp.density(), after if ok else before), "no isotopics: nothing to do"
+
+
+# ------------------------------------------------------------------------------------------------ nuclide flags, type numbers
+BYNAME_U = {"U235": U5, "U238": U8, "O16": O16, "U": nuc("U", 0, element=EL_U)}
+FLG = {"armi.reactor.blueprints.isotopicOptions:yamlize": "YZ", "armi.reactor.blueprints.isotopicOptions:ALLOWED_KEYS": "KEYS",
+       "armi.nucDirectory.nuclideBases:byName": "BYNAME_U"}
+
+
+@lemma(overrides=FLG, gen={"which": (0, 3)})
+def nuclide_flag_files_the_nuclide_as_active_or_inert(which: int, burn: bool, xs: bool):
+    """NuclideFlag.fileAsActiveOrInert: `burn` puts the nuclide (or, for an element with `expandTo`, the isotopes named there -
+    never the element itself) into the active set, `xs` into the inert one, nothing else is touched; the expanded element is
+    reported; an active nuclide without transmutations and decays (here: all but U235) is reported as truncating the burn
+    chain.  Table: stand-in BYNAME_U."""
+    which = choose(which, 0, 3)
+    name = ("U235", "O16", "U", "U")[which]
+    expandTo = (None, [], ["U238"], ["U235", "U238"])[which]
+    active, inert = {"PU239"}, {"FE"}
+    flag = NuclideFlag(name, burn, xs, expandTo)
+    expanded, undefined = flag.fileAsActiveOrInert(active, inert)
+    nucs = ({"U235"}, {"O16"}, {"U238"}, {"U235", "U238"})[which]
+    assert active == ({"PU239"} | nucs if burn else {"PU239"}), "burn: active"
+    assert inert == ({"FE"} | nucs if xs else {"FE"}), "xs: in the cross-section set"
+    assert len(expanded) == (1 if which >= 2 else 0) and all(e.symbol == "U" for e in expanded), "the element that was expanded"
+    assert undefined == ((nucs - {"U235"}) if burn else set())
+
+
+Blueprints = repo("armi.reactor.blueprints:Blueprints")
+AssemblyKeyedList = repo("armi.reactor.blueprints.assemblyBlueprint:AssemblyKeyedList")
+BlockKeyedList = repo("armi.reactor.blueprints.blockBlueprint:BlockKeyedList")
+ROOT = {"armi.reactor.blueprints.blockBlueprint:yamlize": "YZ", "armi.reactor.blueprints.componentBlueprint:yamlize": "YZ",
+        "armi.reactor.blueprints.assemblyBlueprint:yamlize": "YZ", "armi.reactor.blueprints.isotopicOptions:yamlize": "YZ",
+        "armi.reactor.blueprints.gridBlueprint:yamlize": "YZ", "armi.reactor.blueprints.reactorBlueprint:yamlize": "YZ",
+        "armi.reactor.blueprints:yamlize": "YZ"}
+
+
+def assemblyOf(name, blocks):
+    return new(AssemblyBlueprint, name=name, specifier=name[:2], blocks=blocks)
+
+
+@lemma(overrides=ROOT, gen={"given": (0, 1)})
+def block_designs_are_collected_from_the_assemblies_once_each(given: int):
+    """Blueprints._assignTypeNums: without a `blocks` section the block designs are those used by the assemblies, each ONCE, in
+    the order of first use, filed under their names; a given `blocks` section is left as it is."""
+    given = choose(given, 0, 1)
+    b1, b2, b3 = blockDesign("grid plate"), blockDesign("fuel"), blockDesign("plenum")
+    assems = ymap(AssemblyKeyedList, [("inner", assemblyOf("inner", [b1, b2, b2, b3])), ("outer", assemblyOf("outer", [b1, b3]))])
+    own = ymap(BlockKeyedList, [("fuel", b2)])
+    bp = new(Blueprints, assemDesigns=assems, blockDesigns=own if given else None)
+    bp._assignTypeNums()
+    if given:
+        assert same(bp.blockDesigns, own) and list(bp.blockDesigns.keys()) == ["fuel"]
+    else:
+        assert list(bp.blockDesigns.keys()) == ["grid plate", "fuel", "plenum"], "each design once, first use first"
+        assert [d for d in bp.blockDesigns] == [b1, b2, b3] and all(same(x, y) for x, y in zip(bp.blockDesigns, [b1, b2, b3]))
